@@ -69,6 +69,11 @@ func (eng *Engine) buildQuery(o *Obligation) (string, []string) {
 	}
 	body := decls + "\n(assert (not " + o.Goal + "))\n"
 	syms := symsOfText(body)
+	for _, it := range o.Inputs {
+		for sy := range symsOfText(it.Term) {
+			syms[sy] = true
+		}
+	}
 	// global declarations mentioned (and what they mention)
 	var gl strings.Builder
 	for changed := true; changed; {
